@@ -10,8 +10,9 @@ EXTENDS Integers, Sequences, FiniteSets, TLC, Json, IOUtils
 Rows == JsonDeserialize(IOEnv.VERIF_IN)
 VARIABLES i, fails
 
-LeafView(r) == [kind |-> r.kind, qs |-> r.qs, pos |-> r.pos, home |-> r.home, start |-> r.start, end |-> r.end, dur |-> r.dur_v,
-                acq_q |-> r.acq_q, acq_c |-> r.acq_c, link |-> r.rlink.k]
+LeafView(r) == [kind |-> r.kind, qs |-> r.qs, pos |-> r.pos, home |-> r.home, link |-> r.rlink.k]
+TimeView(r) == [start |-> r.start, end |-> r.end, dur |-> r.dur_v]
+IdxView(r)  == [acq_q |-> r.acq_q, acq_c |-> r.acq_c]
 CompView(r) == [home |-> r.home, start |-> r.start, end |-> r.end, dur |-> r.dur_v, nrep |-> r.nrep, members |-> r.members]
 
 PairFails(x, y) ==
@@ -20,6 +21,8 @@ PairFails(x, y) ==
   \cup (IF x.snap.order = y.snap.order THEN {} ELSE {<<"C03.erasure.listing", x.c>>})
   \cup (IF DOMAIN x.snap.leaves = DOMAIN y.snap.leaves
         THEN {<<"C03.erasure.operation", o>> : o \in {o \in DOMAIN x.snap.leaves : LeafView(x.snap.leaves[o]) # LeafView(y.snap.leaves[o])}}
+             \cup {<<"C03.erasure.time", o>> : o \in {o \in DOMAIN x.snap.leaves : TimeView(x.snap.leaves[o]) # TimeView(y.snap.leaves[o])}}
+             \cup {<<"C03.erasure.index", o>> : o \in {o \in DOMAIN x.snap.leaves : IdxView(x.snap.leaves[o]) # IdxView(y.snap.leaves[o])}}
         ELSE {<<"C03.erasure.operations", x.c>>})
   \cup (IF DOMAIN x.snap.comps = DOMAIN y.snap.comps
         THEN {<<"C03.erasure.block", b>> : b \in {b \in DOMAIN x.snap.comps : CompView(x.snap.comps[b]) # CompView(y.snap.comps[b])}}
